@@ -192,6 +192,9 @@ class World:
         self.net.send_observer = self._on_send
         self.net.pre_send_observer = self._pre_send
         self.kill_plan: Optional[Tuple[int, list, str]] = None  # (k, [RawClient], 'fin'|'rst'): asynchronous death
+        # (k, fn): fn() is called right before the manager's k-th send call of the coming round - a call made by ANOTHER thread of the
+        # process (close() is meant to be called from one) lands between two sends of the run loop
+        self.call_plan: Optional[Tuple[int, Any]] = None
         self.mgr_sends = 0
         self.wait_deaths: Dict[Any, str] = {}  # slot -> 'fin'|'rst': the peer goes away WHILE the manager waits for this logger to become writable
         self.clients: Dict[Any, RawClient] = {}
@@ -300,6 +303,10 @@ class World:
         if sock.role != "mgr":
             return
         self.mgr_sends += 1
+        if self.call_plan is not None and self.mgr_sends >= self.call_plan[0]:
+            fn = self.call_plan[1]
+            self.call_plan = None
+            fn()
         if self.kill_plan is not None and self.mgr_sends >= self.kill_plan[0]:
             _, victims, how = self.kill_plan
             self.kill_plan = None
